@@ -224,6 +224,10 @@ def mass_accumulation(ctx, rep, clause):
             for side in (a.value.left, a.value.right):
                 if isinstance(side, ast.Name) and _is_count_of_sequence(f, side.id):
                     count_factor = True
+                # ... or the count written in place: `<sum of the rule's masses> * annotation.sequence.count(aa)`
+                if isinstance(side, ast.Call) and isinstance(side.func, ast.Attribute) and side.func.attr == 'count' and \
+                        isinstance(side.func.value, ast.Attribute) and side.func.value.attr == 'sequence':
+                    count_factor = True
     rep.floor('ACC', 'additive mod_mass contributions in mass()', n_mod, 3)
     # every place a modification can sit contributes an additive term: the source of each term is read off the loops
     # (or generator) that enclose it
